@@ -152,15 +152,28 @@ def run_e2e(item):
     # another string at the same place (fix replaces it)
     old_arg = "" if mode == "create" else wrap(placement, "'zz'")
     lines = [HDR]
+    flags = ("create", "fix")
     for i, s in enumerate(strings):
-        lines.append(f"def test_{i}():\n    assert {wrap(placement, repr(s))} == snapshot({old_arg})\n")
+        if mode == "bound":
+            # the string becomes the new bound of a <= snapshot (fix of a bound: another code path than == )
+            lines.append(f"def test_{i}():\n    assert {repr(s)} <= snapshot('')\n")
+        elif mode == "in_update":
+            # a member written in another spelling (implicit concatenation) is rewritten by update
+            lines.append(f"def test_{i}():\n    assert {repr(s)} in snapshot(['' {repr(s)}])\n")
+            flags = ("update",)
+        elif mode == "never_update":
+            # a snapshot that is never compared, written in another spelling, is rewritten by update
+            lines.append(f"def test_{i}():\n    s = snapshot('' {repr(s)})\n")
+            flags = ("update",)
+        else:
+            lines.append(f"def test_{i}():\n    assert {wrap(placement, repr(s))} == snapshot({old_arg})\n")
     src = "\n".join(lines)
     kw = {}
     if setup == "noblack":
         kw["block_black"] = True
     elif setup == "fmtcmd":
         kw["format_command"] = "/venv/bin/python -m black -q -"
-    res = driver.run_inproc({"test_a.py": src}, ("create", "fix"), **kw)
+    res = driver.run_inproc({"test_a.py": src}, flags, **kw)
     out = {"session_exc": res["session_exc"], "module_exc": res["module_exc"], "tests": res["tests"], "bad": []}
     after = res["files"]["test_a.py"].decode("utf-8", "surrogateescape")
     out["after_tail"] = after[-600:]
@@ -176,7 +189,7 @@ def run_e2e(item):
                 out["bad"].append((i, "snapshot still empty"))
                 continue
             got = eval(compile(ast.Expression(call.args[0]), "<arg>", "eval"), dict(ns))
-            want = eval(wrap(placement, repr(s)), dict(ns))
+            want = [s] if mode == "in_update" else (s if mode in ("bound", "never_update") else eval(wrap(placement, repr(s)), dict(ns)))
             if got != want or repr(got) != repr(want):
                 out["bad"].append((i, f"written {ast.get_source_segment(after, call.args[0])!r} evaluates to {got!r}"))
     except Exception as e:  # noqa
@@ -203,6 +216,10 @@ def e2e(ctx: Ctx):
         if len(strings) < per:
             strings = pool[:per]
         items.append((strings, PLACEMENTS[k % len(PLACEMENTS)], SETUPS[(k // len(PLACEMENTS)) % len(SETUPS)], "create" if (k // (len(PLACEMENTS) * len(SETUPS))) % 2 == 0 else "fix"))
+    # the other code paths that write a string: the bound of <= (fix), a member of `in` (update), a never-compared snapshot (update)
+    for k, mode in enumerate(("bound", "in_update", "never_update") * (3 if not ctx.thorough else 12)):
+        strings = [s_ for s_ in pool[(7 + k * per) % len(pool):][:per] if s_] or ["a b "]
+        items.append((strings, "top", SETUPS[(k // 3) % len(SETUPS)], mode))
     outs = pmap(run_e2e, items, chunksize=1)
     n = 0
     for (strings, placement, setup, mode), o in zip(items, outs):
